@@ -176,6 +176,23 @@ func c08plan(c *core.Ctx) {
 	if bad == 0 {
 		c.OK("C08.a", "PLAN", "Upgrade8To10:all-crash-points", c.P.Pos(fn.Pos()), fmt.Sprintf("%d crash points: the resume (%s) always completes and reaches the uninterrupted final state", len(results), desc))
 	}
+	if c.Tier == "thorough" {
+		// two crashes: during the first run and again during the resumed run
+		r2 := an.CheckReplay2(init, ops, resume)
+		c.Count("double crash points explored for the 8→10 plan", len(r2))
+		bad2 := 0
+		for _, r := range r2 {
+			if r.Err == "" {
+				continue
+			}
+			bad2++
+			c.Bad("C08.a", "PLAN", fmt.Sprintf("Upgrade8To10:double-crash-%d-%d", r.After/1000, r.After%1000), c.P.Pos(fn.Pos()),
+				fmt.Sprintf("crash after operation %d, then again after %d operations of the resumed run: %s", r.After/1000, r.After%1000, r.Err), map[string]any{"plan": planStr, "resume": desc})
+		}
+		if bad2 == 0 {
+			c.OK("C08.a", "PLAN", "Upgrade8To10:all-double-crash-points", c.P.Pos(fn.Pos()), fmt.Sprintf("%d pairs of crash points: the second resume always completes and reaches the uninterrupted final state", len(r2)))
+		}
+	}
 	// the plan is persisted before it is executed
 	writes := an.CallsTo(fn, false, "snapshot/plan.WriteToFile")
 	ok := len(writes) == 1
